@@ -352,6 +352,15 @@ class Exec(ExecBase):
             return VBool(a.term == b.term)
         if isinstance(a, VBool) and isinstance(b, VBool):
             return VBool(a.term == b.term)
+        if isinstance(a, VClass) and isinstance(b, VClass):
+            # class identity: exact class ids (own id of a concrete tealer class = lo of its interval)
+            def cid(c: VClass) -> Any:
+                if c.pycls is None:
+                    return c.term
+                if c.pycls not in self.ct.lo:
+                    raise Unsupported(f"`is` on the foreign class {c.pycls!r}")
+                return z3.IntVal(self.ct.lo[c.pycls])
+            return VBool(cid(a) == cid(b))
         raise Unsupported(f"`is` between {a!r} and {b!r}")
 
     def ev_BinOp(self, node: ast.BinOp, st: State) -> Iterator[Tuple[V, State]]:
@@ -815,13 +824,22 @@ class Exec(ExecBase):
                 base_n = len(st_x.pc)
                 pred = z3.BoolVal(True)
                 st_c = st_x
+                forked = False
                 for c in gen.ifs:
                     outs = list(self.ev(c, st_c))
                     if len(outs) != 1:
-                        raise Unsupported("comprehension condition forks")
+                        # a short-circuit condition (`isinstance(x, C) and x.f == v`) forks: the predicate is the disjunction over
+                        # its evaluation paths of (what the path decided and assumed) /\ (its truth value); nothing is then
+                        # assumed separately about the elements
+                        if len(gen.ifs) != 1 or not outs:
+                            raise Unsupported("comprehension condition forks")
+                        n0 = len(st_c.pc)
+                        pred = z3.Or([z3.And(list(o_st.pc[n0:]) + [self.truth_st(o_v, o_st).term]) for o_v, o_st in outs])
+                        forked = True
+                        break
                     pred = z3.And(pred, self.truth_st(outs[0][0], outs[0][1]).term)
                     st_c = outs[0][1]
-                facts = list(st_c.pc[base_n:])
+                facts = [] if forked else list(st_c.pc[base_n:])
                 xt = self.term_of(x)
                 body = z3.And(facts + [pred]) if facts else pred
                 before = _fresh_consts(z3.And(st_x.pc)) if st_x.pc else {}
@@ -969,6 +987,14 @@ class Exec(ExecBase):
         if cv.pycls is None:
             raise Unsupported("instantiation of a symbolic class")
         cls = cv.pycls
+        if cls is type and len(args) == 1 and not kwargs:
+            # type(x) of an object: its dynamic class (the exact class id, not an interval)
+            (x,) = args
+            x = self.narrow(x, st)
+            if not isinstance(x, VRef):
+                raise Unsupported(f"type() of {x!r}")
+            yield VClass(term=TYPEOF(x.term), base=x.cls), st
+            return
         if cls in (set, frozenset, list, tuple, int, str, bool, dict, range):
             from .builtins_ import call_builtin
             yield from call_builtin(self, VFunc("builtin", pyobj=cls, name=cls.__name__), args, kwargs, st, node)
@@ -1236,6 +1262,14 @@ class Exec(ExecBase):
     def st_Assert(self, s: ast.Assert, st: State) -> Iterator[Out]:
         for c, st1 in self.ev(s.test, st):
             t = self.truth_st(c, st1).term
+            if st1.fi is self.fi and any(n == "AssertionError" for n, _ in self.contract.raises):
+                # the contract lists AssertionError: a failing assert is a raise path (checked against the raises clause)
+                for val, st2 in self.branch(VBool(t), st1, f"assert{s.lineno}"):
+                    if val:
+                        yield "fall", None, st2
+                    else:
+                        yield "raise", ("AssertionError", s.lineno), st2
+                continue
             self.oblige(st1, "safe", f"assert@{s.lineno}", t, where=f"{self.fi.file}:{s.lineno}", tags=["C17"])
             yield "fall", None, st1.assume(t)
 
